@@ -24,7 +24,7 @@
 (* Values are abstract: every value has one canonical form and several     *)
 (* spellings (each possibly needing a syntax feature).                     *)
 (***************************************************************************)
-EXTENDS Integers, Sequences, FiniteSets, TLC
+EXTENDS Integers, Sequences, FiniteSets, TLC, CssVals
 
 \* Bind(v, F) = F(v) with v evaluated ONCE: TLC re-evaluates a LET definition or an operator
 \* argument at every use when it depends on a state variable, but binds a quantified variable
@@ -247,8 +247,7 @@ NestSels ==
 SelOf(key, level) == IF level = 1 THEN TopSels[key] ELSE NestSels[key]
 
 \* ------------------------------------------------------------------ vocabulary: conditions
-Sp(t) == [t |-> t, f |-> {}]
-SpF(t, f) == [t |-> t, f |-> {f}]
+\* Sp(t) / SpF(t, f): a spelling without / with a needed syntax feature (defined in CssVals)
 Atoms ==
   [ w100  |-> [r |-> "media", key |-> "media:(min-width:100px)",
                sp |-> <<Sp("(min-width:100px)"), Sp("(min-width: 100.0px)"), SpF("(width>=100px)", "media-range"), SpF("(100px <= width)", "media-range")>>],
@@ -276,7 +275,7 @@ WFCond(c, rule) ==
 
 \* ------------------------------------------------------------------ vocabulary: values and properties
 \* canon = canonical form (a sequence of component strings); sp = spellings
-Vals ==
+BaseVals ==
   [ red    |-> [kind |-> "color", canon |-> <<"rgba(255,0,0,1)">>,
                 sp |-> <<Sp("red"), Sp("#f00"), Sp("#FF0000"), Sp("rgb(255,0,0)"), Sp("RED"), Sp("hsl(0,100%,50%)"), Sp("rgb(100%,0%,0%)"), Sp("rgba(255,0,0,1.0)"),
                          SpF("rgb(255 0 0)", "rgb-space"), SpF("#ff0000ff", "hex-alpha"), SpF("#f00f", "hex-alpha"), SpF("hsl(0deg 100% 50%)", "rgb-space"), SpF("rgb(255 0 0 / 100%)", "rgb-space")>>],
@@ -326,6 +325,9 @@ Vals ==
     cust4  |-> [kind |-> "custom", canon |-> <<"0px">>, sp |-> <<Sp("0px"), Sp("0px "), Sp("+.0px"), Sp("0.0px")>>],
     cust5  |-> [kind |-> "custom", canon |-> <<"2px">>, sp |-> <<Sp("2px"), Sp("calc(1px + 1px)")>>],
     varx   |-> [kind |-> "var", canon |-> <<"var(--x)">>, sp |-> <<Sp("var(--x)")>>] ]
+
+\* hand-written values (every shorthand family, keywords, custom properties) + the generated grids
+Vals == BaseVals @@ GridVals
 
 Sides == <<"top", "right", "bottom", "left">>
 Corners == <<"border-top-left-radius", "border-top-right-radius", "border-bottom-right-radius", "border-bottom-left-radius">>
